@@ -29,38 +29,63 @@ def delegates_to_super(fn: ast.FunctionDef, dunder: str) -> bool:
     return False
 
 
-def type_matched_ok(repo: Repo) -> Tuple[bool, str]:
-    """type_matched's wrapper raises TypeError unless one operand's type is a subclass of the other's,
-    and otherwise returns method(self, other)."""
+def type_matched_ok(repo: Repo) -> Tuple[Optional[bool], str]:
+    """Path rule on type_matched's wrapper: every returning path returns method(self, other) and has passed a
+    test relating the two operand types (issubclass / isinstance / type identity on both parameters); every
+    other path raises TypeError."""
+    from ..core.paths import PathWalker, flat_conds
+
     ct = repo.mod("celtypes")
     fn = ct.func("type_matched")
     inner = [s for s in fn.body if isinstance(s, ast.FunctionDef)]
     if len(inner) != 1:
-        return False, "no single wrapper function"
+        return None, "no single wrapper function"
     w = inner[0]
     params = [a.arg for a in w.args.args]
-    raises = [n for n in ast.walk(w) if isinstance(n, ast.Raise)]
-    rets = [n for n in ast.walk(w) if isinstance(n, ast.Return) and n.value is not None]
-    if not raises or len(rets) != 1:
-        return False, "wrapper must raise on mismatch and return the wrapped call"
-    r = strip_cast(rets[0].value)
-    ok_ret = isinstance(r, ast.Call) and isinstance(r.func, ast.Name) and r.func.id == fn.args.args[0].arg and [
-        a.id if isinstance(a, ast.Name) else None for a in r.args] == params
-    exc = raises[0].exc
-    ok_exc = isinstance(exc, ast.Call) and dotted(exc.func) == "TypeError"
-    # the guard mentions type(self) and type(other) in an issubclass / isinstance / is test
-    guard_ok = False
-    for n in ast.walk(w):
-        if isinstance(n, ast.If) and any(r_ in ast.walk(n) for r_ in raises):
-            t = ast.unparse(n.test)
-            guard_ok = all(p in t for p in params) and ("issubclass" in t or "isinstance" in t or "type(" in t)
-    return ok_ret and ok_exc and guard_ok, f"returns wrapped call: {ok_ret}; raises TypeError: {ok_exc}; guard on both operand types: {guard_ok}"
+    deco_param = fn.args.args[0].arg
+    try:
+        paths = PathWalker(ct, None).paths(w)
+    except OverflowError:
+        return None, "too many paths"
+    n_ret = n_raise = 0
+    for p in paths:
+        if p.kind == "raise":
+            n_raise += 1
+            exc = p.value
+            name = dotted(exc.func) if isinstance(exc, ast.Call) else dotted(exc) if exc is not None else None
+            if name != "TypeError":
+                return False, f"a mismatch raises {name}, not TypeError"
+            continue
+        if p.kind == "return" and p.value is not None:
+            n_ret += 1
+            r = strip_cast(p.value)
+            if not (isinstance(r, ast.Call) and isinstance(r.func, ast.Name) and r.func.id == deco_param
+                    and [a.id if isinstance(a, ast.Name) else None for a in r.args] == params):
+                return False, f"returns `{ast.unparse(r)[:50]}`, not the wrapped comparison of (self, other)"
+            related = False
+            for t, pol in flat_conds(p.conds):
+                txt = ast.unparse(t)
+                if pol and all(pp in txt for pp in params) and any(k in txt for k in ("issubclass(", "isinstance(", "type(")):
+                    related = True
+            if not related:
+                return False, "the wrapped comparison is reached on a path that did not test that the operand types are related"
+            continue
+        return False, "a path falls off the end of the wrapper (returns None)"
+    if not n_ret or not n_raise:
+        return None, f"{n_ret} returning and {n_raise} raising paths"
+    return True, "returns the wrapped comparison only for related operand types; raises TypeError otherwise"
 
 
-def fold_signature(fn: ast.FunctionDef) -> Optional[Dict[str, str]]:
+def fold_signature(fn: ast.FunctionDef, mod=None) -> Optional[Dict[str, str]]:
     """(size/key comparison op, connective, reducer, neutral element, element comparison op)."""
     sig: Dict[str, str] = {}
     inner = [s for s in fn.body if isinstance(s, ast.FunctionDef)]
+    # the element comparison may also be a module-level helper called from the fold's generator
+    if mod is not None:
+        for c in ast.walk(fn):
+            if isinstance(c, ast.Call) and isinstance(c.func, ast.Name) and mod.has(c.func.id) and isinstance(mod.top(c.func.id), ast.FunctionDef) \
+                    and mod.top(c.func.id) not in inner and c.func.id not in ("reduce", "logical_and", "logical_or", "cast"):
+                inner.append(mod.top(c.func.id))
     for f in inner:
         for n in ast.walk(f):
             if isinstance(n, ast.Return) and n.value is not None:
@@ -104,7 +129,10 @@ def check(repo: Repo, run: Run) -> None:
     run.floor("C08.P1", n, 14)
     # P2 -----------------------------------------------------------------
     ok, why = type_matched_ok(repo)
-    run.ob("C08.P2", "type_matched", ok, f"type_matched: {why}", ct.loc(ct.func("type_matched")))
+    if ok is None:
+        run.inconclusive("C08.P2", "type_matched", why)
+    else:
+        run.ob("C08.P2", "type_matched", ok, f"type_matched: {why}", ct.loc(ct.func("type_matched")))
     n2 = 0
     for cname in ORDERED:
         for d in CMP:
@@ -127,7 +155,7 @@ def check(repo: Repo, run: Run) -> None:
         eq, ne = meths.get("__eq__"), meths.get("__ne__")
         if eq is None or ne is None:
             raise AnchorMissing(f"{cname}.__eq__/__ne__")
-        se, sn = fold_signature(eq), fold_signature(ne)
+        se, sn = fold_signature(eq, ct), fold_signature(ne, ct)
         if se is None or sn is None:
             run.inconclusive("C08.P3", f"celtypes.{cname}", "__eq__/__ne__ are not `size-test <and|or> reduce(...)` folds")
             continue
